@@ -327,7 +327,7 @@ UNIT = dict(
     driver='drivers/delayed_destructor.cpp',
     names=NAMES, ghost=GHOST,
     assumptions=[
-        'std::shared_ptr / std::vector / std::function / std::remove_if / std::find are abstract models: one focus object with exact reference count (split into references held by the verified code and by other owners), all other objects arbitrary; remove_if over the whole list applies the real (lowered) predicate to the focus element and to one arbitrary other element',
+        'std::shared_ptr / std::vector / std::function / std::remove_if / std::find are abstract models: one focus object with exact reference count (split into references held by the verified code and by other owners), all other objects arbitrary; remove_if over the whole list applies the real (lowered) predicate to the focus element and to one arbitrary other element; std::move_iterator / vector(first, last) from move iterators (not used by the current source; present so that a rewrite using them is decided instead of undecided) move the range into a new vector without reference-count changes, allocation may throw',
         'other owners change their reference count only while they hold at least one reference (no std::weak_ptr::lock() resurrection)',
         'the user callback may throw and may reset the pointer it is handed; it does not copy it',
         'environment (rely): whenever destructionLock is acquired the list is arbitrary but well-formed (other threads and re-entrant callbacks / destructors of the same thread may have added or reaped); for the single-thread class the same step is taken inside every callback and object destructor',
